@@ -1231,3 +1231,25 @@ Proof.
     destruct (step (nbase x) t) as [s1 e1]. cbn [fst]. destruct (run_sched M s1 r); reflexivity.
   - cbn. destruct (run_sched M (nbase x) r); reflexivity.
 Qed.
+
+(* ---------------- what one step of thread u does to the shared state ---------------- *)
+Ltac dmatch :=
+  repeat match goal with
+  | |- context [match ?b with _ => _ end] =>
+      lazymatch b with context [match _ with _ => _ end] => fail | _ => destruct b end
+  end.
+
+Lemma step_frame s u t : t <> u ->
+  thr (fst (step s u)) t = thr s t /\ sfrom (fst (step s u)) t = sfrom s t /\
+  sto (fst (step s u)) t = sto s t.
+Proof.
+  intros Hne. unfold step, lb_continue, lb_ret, next_ret.
+  destruct (pc (thr s u)); cbv zeta; dmatch;
+    cbn [fst thr sfrom sto set_thr set_fs set_wq set_dq set_from set_to]; rewrite ?upd_other by auto; auto.
+Qed.
+
+Lemma step_nthr s u : nthr (fst (step s u)) = nthr s.
+Proof.
+  unfold step, lb_continue, lb_ret, next_ret.
+  destruct (pc (thr s u)); cbv zeta; dmatch; reflexivity.
+Qed.
